@@ -87,6 +87,14 @@ func (m *Module) WriteTo(w io.Writer) (n int64, err error) {
 	if err := m.AssignMetadataIDs(); err != nil {
 		panic(fmt.Errorf("unable to assign metadata IDs of module; %v", err))
 	}
+	// Assign local IDs of all functions before anything is printed; a global
+	// variable (or an earlier function) may refer to an unnamed basic block of a
+	// function printed later, e.g. through a blockaddress constant.
+	for _, f := range m.Funcs {
+		if err := f.AssignIDs(); err != nil {
+			panic(fmt.Errorf("unable to assign IDs of function %q; %v", f.Ident(), err))
+		}
+	}
 	// Source filename.
 	if len(m.SourceFilename) > 0 {
 		// 'source_filename' '=' Name=StringLit
